@@ -102,7 +102,7 @@ func classifyParseErr(msg string) string {
 }
 
 func runC14(e *env) error {
-	e.rep.Rule = "cases = (parse profile, object kind, parameter list, result list): ALL parameter lists of length 0..N over a 9-letter role alphabet (source-typed, second source, regex-context name, local-context name, converter-typed, update-named, unnamed, blank) x ALL result lists of length 0..M over {Out, builtin error, package-level type named error, int} x 10 ParseOpts profiles (converter method, with regex / update / local context, extend, extend from another output package, map|FUNC, default, struct method, multi-source), plus non-function, unexported and generic objects; real method.Parse on go/types objects built in memory vs Gv.Signature.parse. quick N=3,M=2; thorough N=4,M=3. non-trivial = at least one parameter or result; distinct = canonical request"
+	e.rep.Rule = "cases = (parse profile, object kind, parameter list, result list): ALL parameter lists of length 0..N over a 9-letter role alphabet (source-typed, second source, regex-context name, local-context name, converter-typed, update-named, unnamed, blank) x ALL result lists of length 0..M over {Out, builtin error, package-level type named error, int} x 10 ParseOpts profiles (converter method, with regex / update / local context, extend, extend from another output package, map|FUNC, default, struct method, multi-source), plus non-function, unexported and generic objects; real method.Parse on go/types objects built in memory vs Gv.Signature.parse. quick: (<=3 params x <=2 results) and (<=2 params x 3 results); thorough: <=4 x <=3. non-trivial = at least one parameter or result; distinct = canonical request"
 	w := newSigWorld()
 	maxP, maxR := 3, 2
 	if e.thorough {
@@ -131,7 +131,7 @@ func runC14(e *env) error {
 			recR(append(cur, a), n-1)
 		}
 	}
-	recR(nil, maxR)
+	recR(nil, 3)
 
 	typeOf := func(k string) types.Type {
 		switch k {
@@ -256,6 +256,9 @@ func runC14(e *env) error {
 	for _, prof := range sigProfiles {
 		for _, ps := range paramLists {
 			for _, rs := range resultLists {
+				if len(rs) > maxR && len(ps) > 2 {
+					continue // quick tier: 3 results only with <= 2 parameters
+				}
 				one(prof, "func", ps, rs)
 			}
 		}
